@@ -188,7 +188,34 @@ def pixel_oracle(ctx):
             body = "fill %s solid ffffffff 3 %d 1" % (ptoks, FB(1.0))
         scenes.append("scene %d %d %d I %s ; xf %s ; %s" % (i, W, H, " ".join(["00000000"] * (W * H)), scene.xf_tokens(xf), body))
         meta.append((ops, rule, xf, i % 3 == 2 and kind != 6))
-    eval_scenes(ctx, scenes, meta)
+    # scenes kept from earlier failures of this oracle (white fill of one path under one transform) are judged again, first
+    cs, cm = [], []
+    for cl in core.corpus("C08", ctx.tier):
+        try:
+            hdr, cops = scene.split_ops(cl)
+            if len(cops) != 2 or not cops[0].startswith("xf ") or not cops[1].startswith("fill P ") or "solid ffffffff 3" not in cops[1]:
+                continue
+            if any(v != "00000000" for v in hdr.split(" I ")[1].split()):
+                continue
+            xf_ = tuple(bits_f32(int(v)) for v in cops[0].split()[1:7])
+            t = cops[1].split()
+            rule_, nops = int(t[2]), int(t[3])
+            j, pops = 4, []
+            for _ in range(nops):
+                k_ = t[j]
+                nn = {"M": 2, "L": 2, "Q": 4, "C": 6, "Z": 0, "A": 5}[k_]
+                tok = [k_] + t[j + 1:j + 1 + nn]
+                j += 1 + nn
+                if k_ == "C":
+                    nq = int(t[j + 1]) if t[j] == "K" else 0
+                    j += 2 + 6 * nq
+                    tok += ["K", "0"]
+                pops.append(" ".join(tok))
+            cs.append("%s ; %s ; fill %s solid ffffffff 3 %d 1" % (hdr, cops[0], scene.path_tokens(pops, rule_), FB(1.0)))
+            cm.append((pops, rule_, xf_, False))
+        except Exception:
+            continue
+    eval_scenes(ctx, cs + scenes, cm + meta)
 
 
 def eval_scenes(ctx, scenes, meta, what="px"):
